@@ -328,3 +328,6 @@ _run_h14 = run
 def run(ctx, rep, tier):
     _run_h14(ctx, rep, tier)
     _destination_typing(ctx, rep, tier)
+    from .shared import delegate
+    delegate(ctx, rep, tier, "C01", ("C01.l",), "C14.i", "an expression's value is what the procedural reading gives: groups of assignments repeated per byte are refused when one reads what another writes (expression reads include index and operand reads)")
+    delegate(ctx, rep, tier, "C13", ("C13.g",), "C14.j", "an expression passed as a macro argument means the same in every context it is used in (assignment, append, condition): all parse entry points switch to its call-site scope")
